@@ -27,6 +27,10 @@ def _link(node, parent=None):
         _link(c, node)
 
 
+def _has_yield(n):
+    return any(isinstance(x, (ast.Yield, ast.YieldFrom)) for x in ast.walk(n))
+
+
 def _has_return(n):
     return any(isinstance(x, ast.Return) for x in ast.walk(n))
 
@@ -38,8 +42,11 @@ def _simple_helper(h):
     for x in ast.walk(h):
         if isinstance(x, (ast.Yield, ast.YieldFrom, ast.Await, ast.Global, ast.Nonlocal)):
             return False
-        if isinstance(x, FUNC + (ast.Lambda, ast.ClassDef)) and x is not h:
+        if isinstance(x, (ast.Lambda, ast.ClassDef)):
             return False
+        if isinstance(x, FUNC) and x is not h and (_has_yield(x) or x.name in {n.id for n in ast.walk(h) if isinstance(n, ast.Name) and isinstance(n.ctx, ast.Load)
+                                                                               and not isinstance(getattr(n, "_parent", None), ast.Call)}):
+            return False        # a nested function is fine while it is only called, never passed around
         if isinstance(x, (ast.Try, ast.With)) and _has_return(x):
             return False
         if isinstance(x, (ast.For, ast.While)) and _has_return(x) and not _returning_loop_ok(x, h):
